@@ -11,7 +11,6 @@ import (
 	"sync"
 	"time"
 
-	"github.com/gr33nbl00d/caddy-revocation-validator/core/verifhook"
 	"github.com/gr33nbl00d/caddy-revocation-validator/crl"
 
 	"verif/harness/graph"
@@ -130,7 +129,7 @@ func newRefWorld(seed int64) (*refWorld, error) {
 	rw := &refWorld{org: origin.New(), inst: map[string]*refInstance{}, decis: map[*crl.CRLRevocationChecker]string{}}
 	rw.ca = pki.NewCA(pki.CAOpts{Name: "Refresher CA", Serial: 90})
 	rw.gate = map[*crl.CRLRevocationChecker]chan struct{}{}
-	verifhook.Set(func(site string, kv ...any) {
+	world.SetHandler(func(site string, kv ...any) {
 		if (site == "crl.update.skip" || site == "crl.update.run") && len(kv) > 0 {
 			if ch, ok := kv[0].(*crl.CRLRevocationChecker); ok {
 				rw.mu.Lock()
@@ -173,7 +172,7 @@ func newRefWorld(seed int64) (*refWorld, error) {
 }
 
 func (rw *refWorld) close() {
-	verifhook.Set(nil)
+	world.SetHandler(nil)
 	for _, in := range rw.inst {
 		in.w.Destroy()
 	}
@@ -414,6 +413,13 @@ func C15(c *vk.Ctx) {
 		}
 	}
 	walks += c15ProvisionIntake(c)
+	// API level: first loads that fail (unreachable, garbage) and are made up for by a later pass, in the foreground and in the
+	// background, with and without signature verification
+	hubFocus(c, []HubCfg{
+		{Mode: "crl_only", Sig: "verify", Strict: false, Fetch: "background", Disk: false, TrustA: false, Conf: "none", Ocsp: "noaia"},
+		{Mode: "crl_only", Sig: "verify_log", Strict: false, Fetch: "background", Disk: true, TrustA: false, Conf: "url", Ocsp: "noaia"},
+		{Mode: "crl_only", Sig: "verify", Strict: false, Fetch: "actively", Disk: true, TrustA: true, Conf: "url", Ocsp: "noaia"},
+	}, c.Pick(420, 6000), func(d hubDoc) bool { return d.Signer == "A" && d.Q != "critext" }, RandomShape, predC15hub)
 	c.Set("traces_validated_against_impl", int64(walks))
 	c.Set("spec", fmt.Sprintf("Refresher.tla: V = {v1, v2}, I = %d, B = %d, per-instance finish timestamp, passes that last up to one time unit while holding the refresh mutex; invariant BoundedRefresh, liveness Live ([]<> refreshed) under weak fairness on the complete graph (no state constraint); all 16 phase pairs", refI, refB))
 	c.Set("rule", "a case is one edge (advance one time unit / tick of an instance with outcome ok or fail) executed on two real validators in one process: time passes by shifting the refresh-finish timestamp(s) back through a verif accessor, a tick is one updateCRLs(false) call in its own goroutine started as soon as the instance is due; a pass that runs is parked at the crl.update.run hook inside the refresh mutex until the specification's TickEnd; the skip/run decision comes from the hook; predicates: time since an instance last re-fetched > B*I; a pass that ran did not fetch a known location (configured url, CDP); after a successful pass the newly published CRL is not in force; configured CRLs not in force when Provision returns")
